@@ -2,6 +2,7 @@
 C02 — Every update is applied exactly once; nothing lost, nothing doubled.
 -/
 import DefraModel.Proofs.CrdtFolds
+import DefraModel.Proofs.CrdtWalk
 namespace Defra.Props.C02
 open Defra Defra.Crdt
 
@@ -55,6 +56,17 @@ theorem redelivery_is_noop (cx : Ctx) (r : Replica) (c : Block)
     (hm : isMerged cx.blocks (r.doc c.doc).heads c.id c.height = true) :
     (loadComposites cx.blocks (r.doc c.doc).heads (cx.blocks.length + 1) c.id ([], [])).1 = [] := by
   simp [loadComposites, hget, hm]
+
+/-- **The walk hands every commit to the merge at most once.** For every block store (well-formed or not), every
+    head set and every start commit, the blocks `loadComposites` collects have pairwise distinct identifiers, and so
+    has the list actually applied (sorted by height, a permutation of it). Together with `counter_is_sum` this is
+    "nothing doubled" for every DAG. (That the walk also reaches EVERY unmerged ancestor is compared by execution,
+    see the note in MANIFEST.) -/
+theorem walk_applies_each_commit_at_most_once (bs : Blocks) (heads : List Nat) (c : Nat) :
+    ((loadComposites bs heads (bs.length + 1) c ([], [])).1.map (·.id)).Nodup ∧
+    ((sortByHeight (loadComposites bs heads (bs.length + 1) c ([], [])).1).map (·.id)).Nodup := by
+  have h := (loadComposites_inv bs heads (bs.length + 1) c ([], []) ⟨by simp, by intro b hb; cases hb⟩).1
+  exact ⟨h, ((sortByHeight_perm _).map _).nodup_iff.mpr h⟩
 
 /-! non-vacuity -/
 def inc1 : Block := ⟨2, .field "points", "d", 1, [], [], .ctr 1⟩
